@@ -33,12 +33,12 @@ EarlyStopConfigs ==
 \* A layer sequence over the five kinds; a final dense output layer is always appended.
 \* Which positions own a training flag: every dense/conv/deconv layer; a feedback block ("fb": one inner layer,
 \* two loops) owns one per unrolled layer; max-pool layers own none.
-Kinds == {"dense", "softmax", "conv", "deconv", "pool", "fb", "fbd"}
+Kinds == {"dense", "softmax", "conv", "deconv", "pool", "fb", "fbd", "fbs"}
 RECURSIVE FlagsOf(_)
 FlagsOf(ks) ==
   IF ks = <<>> THEN <<TRUE>>                         \* the final dense layer
   ELSE (CASE Head(ks) = "pool" -> <<FALSE>>
-          [] Head(ks) \in {"fb", "fbd"} -> <<TRUE, TRUE>>
+          [] Head(ks) \in {"fb", "fbd", "fbs"} -> <<TRUE, TRUE>>
           [] OTHER             -> <<TRUE>>) \o FlagsOf(Tail(ks))
 FlagConfigs ==
   {[Base EXCEPT !.n = 2, !.b = b, !.e = e, !.workers = 2, !.hasval = hv, !.tol = 2, !.nval = 3, !.chunk = 2,
